@@ -61,8 +61,8 @@ impl ZodBindingsGenerator {
 
         let enum_values = variants.join(", ");
         format!(
-            "export const {}Schema = z.enum([{}]);\n\n",
-            name, enum_values
+            "export const {}Schema = z.enum([{}]);\n\nexport type {} = z.infer<typeof {}Schema>;\n\n",
+            name, enum_values, name, name
         )
     }
 
